@@ -112,6 +112,9 @@ transform = st.one_of(
         ['concat', ['fieldb', 'description'], ['str', ' NETFLIX']],
         ['field', 'nosuch'],
         ['bin', '+', ['name', 'amount'], ['num', 1]],
+        # the description rebuilt from a custom field that an EARLIER transform may have rewritten
+        ['concat', ['fieldb', 'description'], ['concat', ['str', ' '], ['field', 'memo']]],
+        ['field', 'memo'],
     ])).map(list),
     st.tuples(st.sampled_from(['memo', 'type']), st.sampled_from([
         ['call', 'trim', [['field', 'memo']]],
@@ -119,6 +122,12 @@ transform = st.one_of(
         ['str', 'WIRE'],
         ['call', 'extract', [['str', r'REF:(\d+)']]],
         ['field', 'nosuch'],
+        # second-stage transforms: they read what an earlier transform of the same (or the other) custom field produced
+        ['call', 'strip_prefix', [['field', 'memo'], ['str', 'REF']]],
+        ['call', 'uppercase', [['field', 'memo']]],
+        ['call', 'regex_replace', [['field', 'memo'], ['str', r'\s+'], ['str', '']]],
+        ['field', 'type'],
+        ['concat', ['field', 'memo'], ['str', '!']],
     ])).map(list),
 )
 
@@ -154,7 +163,7 @@ def rule_file(draw, max_rules=8, depth=2, transforms=True, tag_only_p=3):
     rules = draw(st.lists(rule(depth, tag_only_p), min_size=0, max_size=max_rules))
     return {
         'vars': draw(st.lists(variable, max_size=3, unique_by=lambda v: v[0])),
-        'transforms': draw(st.lists(transform, max_size=2)) if transforms else [],
+        'transforms': draw(st.lists(transform, max_size=3)) if transforms else [],
         'rules': rules,
     }
 
@@ -254,7 +263,10 @@ def ref_transforms(rf, txn):
     for k, e in rf.get('transforms', []):
         try:
             v = ref_eval(e, Env(t))
-        except (RefErr, Unspecified):
+        except RefErr:
+            continue
+        except Unspecified:
+            t['_unspecified_transform'] = True
             continue
         if k == 'description':
             t['description'] = str(v)
@@ -338,7 +350,7 @@ def ref_classify(rf, txn, rows):
             tags |= ref_tags(r, t, v, rows)
             if winner is None and r.get('category'):
                 winner, wvars = i, v
-    res = {'truths': truths, 'tags': tags, 'winner': winner, 'description': t['description']}
+    res = {'truths': truths, 'tags': tags, 'winner': winner, 'description': t['description'], 'field': t.get('field'), 'state_known': not t.get('_unspecified_transform')}
     if winner is not None:
         r = rf['rules'][winner]
         res.update(merchant=r.get('merchant') or r['name'], category=r['category'], subcategory=r.get('subcategory', ''),
